@@ -56,3 +56,41 @@ impl Value {
     pub fn undefined() -> (r: Value) ensures r == the_undefined() { unimplemented!() }
 }
 impl Clone for Value { #[verifier::external_body] fn clone(&self) -> (r: Value) ensures r == *self { unimplemented!() } }
+// ---- Value::contains (`in`), Value::reverse
+/// `==` on values (C15: engine K groups valuelaws / numcmp decide what it means)
+pub uninterp spec fn value_eq(a: Value, b: Value) -> bool;
+/// `arr.contains(needle)` (std): some element is == the needle
+#[verifier::external_body]
+pub fn vx_vec_contains(v: &Arc<Vec<Value>>, needle: &Value) -> (r: bool)
+    ensures r == exists|i: int| 0 <= i < (**v)@.len() && value_eq(#[trigger] (**v)@[i], *needle)
+{ unimplemented!() }
+/// `hay.contains(needle)` on texts (std): the needle occurs as a contiguous run of characters
+pub open spec fn occurs_in(needle: Seq<char>, hay: Seq<char>) -> bool { exists|i: int| 0 <= i && i + needle.len() <= hay.len() && #[trigger] hay.subrange(i, i + needle.len()) == needle }
+#[verifier::external_body]
+pub fn vx_str_contains(hay: &str, needle: &str) -> (r: bool) ensures r == occurs_in(needle@, hay@) { unimplemented!() }
+#[verifier::external_body]
+pub fn vx_map_contains_key(m: &Arc<Map>, k: &Key) -> (r: bool) ensures r == map_has(**m, key_view(*k)) { unimplemented!() }
+pub uninterp spec fn as_str_spec(v: Value) -> Option<Seq<char>>;
+impl Value {
+    #[verifier::external_body]
+    pub fn as_str(&self) -> (r: Option<&str>)
+        ensures r is Some == as_str_spec(*self) is Some, r is Some ==> r->Some_0@ == as_str_spec(*self)->Some_0
+    { unimplemented!() }
+}
+/// `(**v).clone()` followed by `reverse()` (std), `Self::from(vec)`
+#[verifier::external_body]
+pub fn vx_clone_values(v: &Arc<Vec<Value>>) -> (r: Vec<Value>) ensures r@ == (**v)@ { unimplemented!() }
+#[verifier::external_body]
+pub fn vx_reverse_values(v: &mut Vec<Value>) ensures final(v)@ == old(v)@.reverse() { unimplemented!() }
+pub uninterp spec fn array_value(s: Seq<Value>) -> Value;
+pub uninterp spec fn bytes_value(s: Seq<u8>) -> Value;
+pub uninterp spec fn string_value(s: Seq<char>) -> Value;
+#[verifier::external_body]
+pub fn vx_value_from_vec(v: Vec<Value>) -> (r: Value) ensures r == array_value(v@) { unimplemented!() }
+#[verifier::external_body]
+pub fn vx_value_from_bytes_rev(v: &Arc<Vec<u8>>) -> (r: Value) ensures r == bytes_value((**v)@.reverse()) { unimplemented!() }
+/// `s.as_str().chars().rev().collect::<String>()` then `Self::from(..)`: the CHARACTERS in reverse order
+#[verifier::external_body]
+pub fn vx_chars_rev_string(s: &str) -> (r: String) ensures r@ == s@.reverse() { unimplemented!() }
+#[verifier::external_body]
+pub fn vx_value_from_string(s: String) -> (r: Value) ensures r == string_value(s@) { unimplemented!() }
